@@ -54,7 +54,7 @@ fn replay_seq(v: &Value) -> Verdict {
 
 fn c04_run(ctx: &ShardCtx) -> ShardResult {
     let max_ops = ctx.tier.pick(60, 300);
-    let cases = ctx.tier.pick(1500, 40_000);
+    let cases = ctx.tier.pick(8000, 40_000);
     run_proptest(ctx, stoseq::case_strategy(stoseq::all_kinds(), stoseq::C04_PROFILE, max_ops), cases, 4, |c, stats| {
         let f = stoseq::run_case_dyn(c, &NORMAL)?;
         label(stats, c, &f);
@@ -71,7 +71,7 @@ fn c08_fuzz(ctx: &ShardCtx) -> ShardResult {
     crate::engine::run_fuzz(ctx, "seq_target", "C08")
 }
 
-const FUZZ_RULE: &str = "thorough tier only: libFuzzer (cargo-fuzz, AddressSanitizer) campaigns of 300000 executions each on a target that decodes bytes (arbitrary::Unstructured) into the same SeqCase type (all 12 storage configurations, dense and sparse pools) and runs the same interpreter and oracles, so silent heap corruption in the unsafe storage code becomes a crash; non-trivial as in the proptest part; counts come from the target";
+const FUZZ_RULE: &str = "thorough tier only: libFuzzer (cargo-fuzz, AddressSanitizer) campaigns (120000 executions per shard for histories, 200000 for storage sequences) on a target that decodes bytes (arbitrary::Unstructured) into the same SeqCase type (all 12 storage configurations, dense and sparse pools) and runs the same interpreter and oracles, so silent heap corruption in the unsafe storage code becomes a crash; non-trivial as in the proptest part; counts come from the target";
 
 pub fn c04() -> Property {
     Property {
@@ -92,7 +92,7 @@ pub fn c04() -> Property {
 
 fn c08_seq_run(ctx: &ShardCtx) -> ShardResult {
     let max_ops = ctx.tier.pick(50, 250);
-    let cases = ctx.tier.pick(1000, 30_000);
+    let cases = ctx.tier.pick(6000, 30_000);
     run_proptest(ctx, stoseq::case_strategy(stoseq::all_kinds(), stoseq::C04_PROFILE, max_ops), cases, 8, |c, stats| {
         let mode = Mode { diff_tag: "C04", check_events: false, fault_at: None, bomb: Bomb::None };
         let f = stoseq::run_case_dyn(c, &mode)?;
@@ -104,7 +104,7 @@ fn c08_seq_run(ctx: &ShardCtx) -> ShardResult {
 
 fn c08_hist_run(ctx: &ShardCtx) -> ShardResult {
     let max_ops = ctx.tier.pick(40, 150);
-    let cases = ctx.tier.pick(800, 25_000);
+    let cases = ctx.tier.pick(6000, 25_000);
     run_proptest(ctx, hist::history_strategy(hist::MIXED_PROFILE, max_ops), cases, 9, |h, stats| {
         let (f, _) = hist::run_history(h, false)?;
         if f.lazy_actions_run > 0 {
@@ -156,7 +156,7 @@ pub fn c08() -> Property {
 
 fn c12_body(ctx: &ShardCtx, salt: u64) -> ShardResult {
     let max_ops = ctx.tier.pick(50, 250);
-    let cases = ctx.tier.pick(1200, 30_000);
+    let cases = ctx.tier.pick(8000, 30_000);
     run_proptest(ctx, stoseq::case_strategy(stoseq::tracked_kinds(), stoseq::C12_PROFILE, max_ops), cases, salt, |c, stats| {
         let mode = Mode { diff_tag: "C04", check_events: true, fault_at: None, bomb: Bomb::None };
         let f = stoseq::run_case_dyn(c, &mode)?;
@@ -258,7 +258,7 @@ fn run_fault(fc: &FaultCase) -> Result<SeqFacts, Violation> {
 }
 
 fn c19_run(ctx: &ShardCtx) -> ShardResult {
-    let cases = ctx.tier.pick(250, 8000);
+    let cases = ctx.tier.pick(1200, 8000);
     let max_prefix = ctx.tier.pick(20, 60);
     run_proptest(ctx, proto_strategy(max_prefix), cases, 19, |(seq, at), stats| {
         // dry run: which values does the destroying operation destroy?
@@ -376,7 +376,7 @@ pub fn c19() -> Property {
 
 fn c13_seq_run(ctx: &ShardCtx) -> ShardResult {
     let max_ops = ctx.tier.pick(40, 150);
-    let cases = ctx.tier.pick(800, 20_000);
+    let cases = ctx.tier.pick(2000, 20_000);
     run_proptest(ctx, stoseq::restrict_case_strategy(max_ops), cases, 31, |c, stats| {
         let f = stoseq::run_case_dyn(c, &NORMAL)?;
         label(stats, c, &f);
@@ -404,7 +404,7 @@ fn c13_hist_eval(h: &hist::History) -> Result<hist::Facts, Violation> {
 
 fn c13_hist_run(ctx: &ShardCtx) -> ShardResult {
     let max_ops = ctx.tier.pick(40, 120);
-    let cases = ctx.tier.pick(600, 15_000);
+    let cases = ctx.tier.pick(4000, 15_000);
     run_proptest(ctx, hist::history_strategy(hist::RESTRICT_PROFILE, max_ops), cases, 32, |h, stats| {
         let f = c13_hist_eval(h)?;
         if f.restrict_other_live > 0 {
